@@ -20,6 +20,7 @@ import (
 //   objaddr  elf mapping? openOk addrs bias(-1 = none)     ↦ [res...] (base isData)
 //   nm       base syms addrs                               ↦ [name?...]
 //   tooladdr base addr                                     ↦ the addresses written to addr2line / llvm-symbolizer (code, data)
+//   a2lnm    base syms hasNM addr stack (c13a2l.go)         ↦ Func of the frames addr2Liner.addrInfo returns
 //   maps     elf mapping bias (thorough, real processes)   ↦ [] (specification-side check only)
 // The loader-driven generators (c13LoaderCases) construct the runtime mapping from the segment
 // layout and a page-aligned bias exactly as the kernel does and ship the bias, so that the Coq
@@ -816,6 +817,7 @@ func runC13(c *Ctx) {
 	c13ObjAddrMisc(c, c.Budget(400, 10000))
 	c13NMCases(c, c.Budget(400, 8000))
 	c13ToolCases(c, c.Budget(150, 3000))
+	c13A2LNMCases(c, c.Budget(500, 10000))
 	if c.Tier == "thorough" {
 		c13RealBinaries(c)
 	}
